@@ -1,6 +1,6 @@
 (* C09 — save / load round-trips every dendrogram; the textual tree encoding parses back. *)
 From Coq Require Import ZArith List Bool Permutation String.
-From Dendro Require Import Base Tree Index IndexLemmas Newick NewickLemmas IO IOLemmas.
+From Dendro Require Import Base Tree Index IndexLemmas Newick NewickLemmas LexerLemmas IO IOLemmas.
 Import ListNotations.
 Open Scope Z_scope.
 
@@ -9,6 +9,13 @@ Open Scope Z_scope.
 Theorem C09_newick_roundtrip : forall f, parse_forest (toks_forest f) = Some f.
 Proof. exact parse_write_forest. Qed.
 Print Assumptions C09_newick_roundtrip.
+
+(* character level: the TEXT written for any forest whose identifiers are non-negative and
+   whose heights are rendered over the alphabet of "%.3f" (digits, '.', '-'; non-empty) lexes and
+   parses back to exactly that forest - any size, any depth, any identifiers *)
+Theorem C09_text_roundtrip : forall f, all_ok f -> parse_text (render (toks_forest f)) = Some f.
+Proof. exact parse_text_render. Qed.
+Print Assumptions C09_text_roundtrip.
 
 (* in particular identifiers, nesting and child order of a dendrogram's tree *)
 Theorem C09_newick_roundtrip_shape :
@@ -73,3 +80,8 @@ Example C09_example :
   parse_text (render (toks_forest [NNode 10 "1.000" []; NNode 2 "-0.250" [NNode 1 "2.000" []; NNode 305 "0.500" []]]))
   = Some [NNode 10 "1.000" []; NNode 2 "-0.250" [NNode 1 "2.000" []; NNode 305 "0.500" []]].
 Proof. vm_compute. reflexivity. Qed.
+
+(* the hypothesis of C09_text_roundtrip is met by that forest *)
+Example C09_example_all_ok :
+  all_ok [NNode 10 "1.000" []; NNode 2 "-0.250" [NNode 1 "2.000" []; NNode 305 "0.500" []]].
+Proof. cbn. unfold hok. cbn. repeat split; try discriminate; try (intros H; discriminate H). Qed.
